@@ -21,7 +21,7 @@ DOC = {
         'C02.R4': 'no mutating primitive reachable from run_script has a mutated-path argument with role KEEP',
         'C02.R5': 'the regular-file filter and the length filter run before FileSubGroup::group on every path',
         'C02.R6': 'for HardLink and RefLink the group is partitioned by device before partition()',
-        'C02.R9': 'a symbolic link is never relied upon to hold the data (the metadata follow links, so with -S a link looks like a regular file): partition adds a sub-group with a real file to the retained set when that set consists of links only; dedupe_script links to a retained real file (none -> no link commands); a link is moved by copying',
+        'C02.R9': 'several reported paths may be one and the same thing: (i) a symbolic link is never relied upon to hold the data (the metadata follow links, so with -S a link looks like a regular file): partition adds a sub-group with a real file to the retained set when that set consists of links only; the replica count compared with n excludes link-only sub-groups; dedupe_script links to a retained real file (none -> no link commands); a link is moved by copying; (ii) a sub-group is kept when more reported paths share its file id than the file has links (aliases through a symlinked / bind-mounted parent)',
         'C02.R8': 'the sub-groups that partition keeps or drops as a whole are formed as documented: by root first, then by file identifier (hard links, symlink + target), else singletons (re-evaluates C06.R4, C06.R5 on FileSubGroup::group, which dedupe::partition calls)',
         'C02.R7': 'the modification check covers the whole group, including the files that will be retained (re-evaluates C04.R1, C04.R2, C04.R3)',
     },
@@ -64,8 +64,8 @@ def r1(ctx):
     ctx.ok(rule, P + '|n-at-least-one', N.where(), 'n = max(%s, rf_over)' % [const_int(a) for a in N.args if const_int(a) is not None][0])
     ss = [c for c in b.calls(r'saturating_sub$')]
     ss = [c for c in ss if N.dest[0] in backslice(b, [c.args[0]]).locals]
-    if not ctx.floor(rule, 'n.saturating_sub(|retained|)', len(ss), 1, b.where()):
-        return
+    if not ss:
+        return r1_loop(ctx, rule, b, N)
     S = ss[0]
     # |retained| must be Vec<FileSubGroup>::len of the retained half of the partition
     from ..analysis import direct_def, base_named_local
@@ -126,6 +126,82 @@ def r1(ctx):
         ctx.check(bool(kn & en) and bool(dn & drn) and not (kn & drn - en) , rule, P + '|result-fields', b.where(s['line']), 'to_keep = the topped-up set, to_drop = the drained remainder', 'to_keep/to_drop are not the retained/remaining sets')
         okd = all(b.dominates(ext[0].bb, res[0][0]) for _ in [0])
         ctx.check(okd, rule, P + '|top-up-before-result', b.where(s['line']), 'the top-up dominates the result', 'a path builds the result without the top-up')
+
+
+def r1_loop(ctx, rule, b, N):
+    """second accepted idiom of the top-up: `while count(retained replicas) < n { retained.push(to_drop.remove(position(..))) }`"""
+    from ..analysis import comparisons, branch_of, base_named_local, direct_def
+    P = b.path
+    lib = ctx.lib
+    def receiver_root(op, hops=8):
+        """name of the local at the bottom of a method chain x.iter().filter(..).count()"""
+        for _ in range(hops):
+            l = base_named_local(b, op)
+            if l is not None and b.local_name(l):
+                return b.local_name(l)
+            dd_ = direct_def(b, op)
+            if dd_[0] == 'call' and dd_[1].args:
+                op = dd_[1].args[0]
+            else:
+                return None
+        return None
+    loop = None
+    for cmp in comparisons(b):
+        if not any(cmp.bb in b.reachable(x) for x in b.succs(cmp.bb)):
+            continue        # not a loop condition (e.g. the assertion after the loop)
+        for cnt_side, n_side, op in ((cmp.a, cmp.b, cmp.op), (cmp.b, cmp.a, {'<': '>', '>': '<', '<=': '>=', '>=': '<='}.get(cmp.op, cmp.op))):
+            dc = direct_def(b, cnt_side)
+            if dc[0] == 'call' and dc[1].matches(r'Iterator>::count$|Iterator::count$') and N.dest[0] in backslice(b, [n_side]).locals:
+                loop = (cmp, dc[1], op)
+    if not ctx.floor(rule, 'top-up: n.saturating_sub(|retained|) or `count(retained) < n` loop', 1 if loop else 0, 1, b.where()):
+        return
+    cmp, cnt, op = loop
+    # what is counted: sub-groups of the retained set
+    ty = (cnt.t.get('argtys') or [''])[0] or b.local_ty(op_local(cnt.args[0]) or 0)
+    root = receiver_root(cnt.args[0])
+    names = [root]
+    chain = []
+    op_ = cnt.args[0]
+    for _ in range(6):
+        dd_ = direct_def(b, op_)
+        if dd_[0] != 'call' or not dd_[1].args:
+            break
+        chain.append(dd_[1].path.rsplit('::', 1)[-1])
+        op_ = dd_[1].args[0]
+    counted_ok = root == 'to_retain' and not any(x in ('flat_map', 'flatten') for x in chain)
+    br0 = branch_of(b, cmp)
+    NEGR = {'<': '>=', '<=': '>', '>': '<=', '>=': '<', '==': '!=', '!=': '=='}
+    if br0:
+        pushes0 = [c for c in b.calls(r'Vec<.*>::push$|Vec::<T, A>::push$') if receiver_root(c.args[0]) == 'to_retain']
+        stays_t = any(c.bb in b.reachable(br0[1]) and b.dominates(br0[1], c.bb) for c in pushes0)
+        stays_f = any(c.bb in b.reachable(br0[2]) and b.dominates(br0[2], c.bb) for c in pushes0)
+        if stays_f and not stays_t:
+            op = NEGR.get(op, op)       # the loop goes on when the comparison is false
+    ctx.check(counted_ok and op == '<', rule, P + '|counts-subgroups', cnt.where(), 'the loop runs while (number of retained sub-groups that hold data) < n',
+              'the top-up loop does not compare the number of retained sub-groups with n (counted over %s, relation %s): each hard-link set / isolate root is one replica' % (sorted(names), op))
+    br = branch_of(b, cmp)
+    pushes = [c for c in b.calls(r'Vec<.*>::push$|Vec::<T, A>::push$') if base_named_local(b, c.args[0]) is not None and b.local_name(base_named_local(b, c.args[0])) == 'to_retain']
+    good = False
+    why = 'no `to_retain.push(to_drop.remove(..))` under the loop condition'
+    for pu in pushes:
+        dr = direct_def(b, pu.args[1])
+        if dr[0] == 'call' and dr[1].matches(r'Vec<.*>::remove$|Vec::<T, A>::remove$') and receiver_root(dr[1].args[0]) == 'to_drop':
+            in_loop = br is not None and (b.dominates(br[1], pu.bb) or b.dominates(br[2], pu.bb)) and cmp.bb in b.reachable(pu.bb)
+            pos = [c for c in b.calls(r'Iterator>::position$|Iterator::position$') if receiver_root(c.args[0]) == 'to_drop' and b.dominates(c.bb, pu.bb) and (b.dominates(br[1], c.bb) or b.dominates(br[2], c.bb))] if br else []
+            from_pos = bool(pos)
+            if in_loop and from_pos:
+                good = True
+            else:
+                why = 'the push is not inside the loop / the index does not come from position() over to_drop'
+    ctx.check(good, rule, P + '|top-up', (pushes[0].where() if pushes else b.where()), 'while short of n: to_retain.push(to_drop.remove(first sub-group holding data))', 'top-up: ' + why)
+    res = aggregates(b, 'dedupe::PartitionedFileGroup')
+    if res:
+        s_ = res[0][1]
+        kn = {receiver_root(agg_field(s_, 'to_keep'))}
+        dn = {receiver_root(agg_field(s_, 'to_drop'))}
+        ctx.check('to_retain' in kn and 'to_drop' in dn and 'to_drop' not in kn, rule, P + '|result-fields', b.where(s_['line']), 'to_keep = the topped-up set, to_drop = the remainder', 'to_keep/to_drop are not the retained/remaining sets')
+        # the result is built only after the loop has been left: the loop head dominates it
+        ctx.check(b.dominates(cmp.bb, res[0][0]), rule, P + '|top-up-before-result', b.where(s_['line']), 'the top-up loop dominates the result', 'a path builds the result without the top-up')
 
 
 def r2(ctx):
@@ -403,6 +479,31 @@ def reads_linkness(lib, body, operand_or_call, depth=0):
     return False
 
 
+def closure_reads_linkness(lib, cp, _seen=None):
+    """does the closure (or a closure it calls / captures) read PathAndMetadata.link_metadata or lstat the path?"""
+    seen = _seen if _seen is not None else set()
+    if cp in seen or lib.body(cp) is None:
+        return False
+    seen.add(cp)
+    cb = lib.body(cp)
+    for blk in cb.blocks:
+        for st in blk['stmts']:
+            for pl in [st['rv'].get('p')] + [((o.get('c') or o.get('m')) if isinstance(o, dict) else None) for o in [st['rv'].get('op')] + list(st['rv'].get('ops') or [])]:
+                if pl and 'link_metadata' in place_fields(pl):
+                    return True
+    if cb.calls(r'symlink_metadata$|FileType::is_symlink$'):
+        return True
+    for k in cb.calls():
+        if k.f.get('self_closure') and closure_reads_linkness(lib, k.f['self_closure'], seen):
+            return True
+        for a in k.args:
+            l = op_local(a)
+            cq = lib.closure_of_type(cb.local_ty(l).lstrip('&').strip()) if l is not None else None
+            if cq and closure_reads_linkness(lib, cq, seen):
+                return True
+    return False
+
+
 def r9(ctx):
     rule = 'C02.R9'
     lib = ctx.lib
@@ -429,6 +530,71 @@ def r9(ctx):
     ctx.check(ok_a, rule, 'dedupe::partition|links-hold-no-data', site, 'partition extends the retained set with a real file when it would consist of symbolic links only',
               'partition never looks at whether a path is a symbolic link (its metadata follow links): with a report made by `group -S --isolate links data` the link and its target are two replicas, '
               'the retained one can be the link and the dropped one the only regular file: `remove` deletes the data and leaves a dangling link')
+    # (a2) what is compared with n does not count link-only sub-groups
+    from ..analysis import direct_def
+    cnt = [c for c in pt.calls(r'Iterator>::count$|Iterator::count$') if any(c.bb in pt.reachable(x) for x in pt.succs(c.bb))]
+    lens = [c for c in pt.calls(r'saturating_sub$')]
+    if cnt:
+        okc = False
+        op_ = cnt[0].args[0]
+        for _ in range(6):          # walk the method chain to_retain.iter().filter(closure).count()
+            dd_ = direct_def(pt, op_)
+            if dd_[0] != 'call' or not dd_[1].args:
+                break
+            for a_ in dd_[1].args[1:]:
+                l_ = op_local(a_)
+                cp_ = lib.closure_of_type(pt.local_ty(l_)) if l_ is not None else None
+                if cp_ and closure_reads_linkness(lib, cp_):
+                    okc = True
+            op_ = dd_[1].args[0]
+        where_ = cnt[0].where()
+    else:
+        okc = False
+        where_ = lens[0].where() if lens else pt.where()
+    ctx.check(okc, rule, 'dedupe::partition|replica-count-excludes-links', where_, 'the number of retained replicas that is compared with n counts only sub-groups holding a real file',
+              'the top-up compares n with the plain number of retained sub-groups: with `group -S --isolate -n 2` a retained symbolic link counts as one of the 2 replicas while the file it points to '
+              'is dropped - one readable copy is left instead of two')
+    # (a3) aliases: several reported paths that are one directory entry (symlinked or bind-mounted parent directory)
+    bodies = [pt] + [lib.body(x) for x in lib.closures_of(pt.path)]
+    nl = [c for x in bodies for c in x.calls(r'MetadataExt>::nlink$|MetadataExt::nlink$|Metadata::nlink$')]
+    oka = False
+    if nl:
+        for c in pt.calls(r'Vec<.*>::(push|extend|insert|append)$|Vec::<T, A>::push$'):
+            names = {pt.local_name(l) for l in backslice(pt, [c.args[0]]).locals}
+            if 'to_retain' not in names:
+                continue
+            for d, bypass in bypass_decisions(pt, c.bb):
+                sl_ = backslice(pt, [pt.blocks[d]['term']['op']])
+                for k in sl_.calls:
+                    for a in k.args:
+                        l = op_local(a)
+                        cp = lib.closure_of_type(pt.local_ty(l)) if l is not None else None
+                        stack = [cp] if cp else []
+                        seen_ = set()
+                        while stack:
+                            q = stack.pop()
+                            if q in seen_ or lib.body(q) is None:
+                                continue
+                            seen_.add(q)
+                            qb = lib.body(q)
+                            if qb.calls(r'nlink$'):
+                                oka = True
+                            for kk in qb.calls():
+                                for aa in kk.args:
+                                    ll = op_local(aa)
+                                    cq = lib.closure_of_type(qb.local_ty(ll)) if ll is not None else None
+                                    if cq:
+                                        stack.append(cq)
+                                if kk.f.get('self_closure'):
+                                    stack.append(kk.f['self_closure'])
+                            # closures captured by reference (is_alias used inside the position closure)
+                            for ty_ in [l_['ty'] for l_ in qb.raw.get('locals', [])]:
+                                cq = lib.closure_of_type(ty_.lstrip('&').strip()) if 'closure@' in ty_ else None
+                                if cq:
+                                    stack.append(cq)
+    ctx.check(oka, rule, 'dedupe::partition|aliases-not-dropped', (nl[0].where() if nl else pt.where()), 'a sub-group is retained when more reported paths share its file id than the file has links (the paths are one directory entry)',
+              'partition treats all reported paths as different directory entries: after a parent directory was replaced by a symbolic link to the other directory (`rm -rf backup; ln -s photos backup`), '
+              'or with a bind mount, photos/a.jpg and backup/a.jpg are the same entry (same file id, link count 1) - one is "retained", the other removed, and the only copy is gone')
     # (b) the link target is chosen by link-ness
     tgt = ds.calls(r'Vec<.*>::(swap_remove|remove)$|::swap_remove$')
     ok_b = bool(tgt) and any(reads_linkness(lib, ds, c.args[1]) for c in tgt if len(c.args) > 1)
